@@ -81,8 +81,8 @@ def dispatchGkdi (toks : List String) : Option String :=
   | "newkek" :: rnd :: t => do
     let e ← env? t; let rnd ← parseHex rnd
     some (showR ((newKek C e rnd).map fun (kek, kid) => s!"{toHex kek} {showKid kid}"))
-  | ["computekek", h, sa, priv, pub] => do
-    some (showR ((computeKek C (← hash? h) (← parseHex sa) (← parseHex priv) (← parseHex pub)).map toHex))
+  | ["computekek", h, sa, sp, priv, pub] => do
+    some (showR ((computeKek C (← hash? h) (← parseHex sa) (← parseHex sp) (← parseHex priv) (← parseHex pub)).map toHex))
   | ["pubkey", sa, priv, peer] => do
     some (showR ((computePublicKey C (← parseHex sa) (← parseHex priv) (← parseHex peer)).map toHex))
   | ["toystream", tag, n, a, b] => do
